@@ -47,7 +47,39 @@ def merger_restores_input_spelling(case):
     return False
 
 
+def merger_init_reorders_flatten_constituents(case):
+    """
+    F-C11-6: a merger bound to a tensor that holds >= 2 constituents of a flattened loop rank separately (it lacks another
+    constituent, so it is looked up with getPayload(n0, j)) and whose init-ranks list those constituents in another relative
+    order than final-ranks: LoopOrder.apply keeps the incoming order of ranks that become ready at the same loop, so after the
+    merger's first swizzle the loop-order swizzle yields [.., J, N0] instead of [.., N0, J]; the lookup order stays (n0, j) and
+    the formats dictionary names a tensor version (B_IN1N0J) that is never created.
+    """
+    import re
+    spec = case.get("spec")
+    if not spec or not (spec.get("extra") or {}).get("bindings"):
+        return False
+    for out, entries in spec["extra"]["bindings"].items():
+        groups = []
+        for key, dirs in (spec.get("partitioning") or {}).get(out, []):
+            if key.startswith("(") and any("flatten" in d for d in dirs):
+                groups.append([r.strip() for r in key.strip("()").split(",")])
+        if not groups:
+            continue
+        for x in entries:
+            for b in x.get("bindings", []):
+                if "final-ranks" not in b:
+                    continue
+                init, fin = list(b["init-ranks"]), list(b["final-ranks"])
+                for g in groups:
+                    held = [r for r in fin if r in g]
+                    if len(held) >= 2 and [r for r in init if r in g] != held:
+                        return True
+    return False
+
+
 EXCLUDED = {"flattened_output_explicit_shape": flattened_output_explicit_shape,
+            "merger_init_reorders_flatten_constituents": merger_init_reorders_flatten_constituents,
             "merger_restores_input_spelling": merger_restores_input_spelling}
 
 
